@@ -2213,7 +2213,14 @@ class BSP:
         if self.is_vitamin:
             return b''  # Unused.
         else:
-            return self._write_faces_common(faces, find_or_insert(self.orig_faces))
+            # The face IDs lump runs parallel to the LDR faces. If those exist they have
+            # already supplied it, don't replace it with the IDs of the HDR copies.
+            face_ids = self.lumps[BSP_LUMPS.FACEIDS]
+            prev_ids = face_ids.data
+            result = self._write_faces_common(faces, find_or_insert(self.orig_faces))
+            if self.lumps[BSP_LUMPS.FACES].data:
+                face_ids.data = prev_ids
+            return result
 
     def _lmp_read_brushes(self, data: bytes) -> Iterator['Brush']:
         """Parse brush definitions, along with the sides."""
